@@ -20,7 +20,9 @@ MANIFEST = dict(
           "C++ memory accesses follow the discipline (data-race freedom) is NOT proved; it is validated on every run, in both "
           "tiers, by ThreadSanitizer on sampled schedules (2..16 threads, seeded delays at the pool's synchronisation points) "
           "and by comparing every concurrent call bit for bit with the same call alone (fits with pools of 1, 2, 4, 16 "
-          "workers: same selected features, predictions within 1e-5 relative); the observed footprints (which tnum indexed "
+          "workers: bit-identical when only the fold/trial tasks run in parallel; with parallel reductions linear models within "
+          "1e-5 relative, gboost differences are recorded as candidate findings: its greedy discrete choices amplify "
+          "re-association noise); the observed footprints (which tnum indexed "
           "which buffer, which slot was stored / read back, fast-path decisions, chunk lists) are fed to the extracted model."),
     note=("Coq kernel; the footprints are a hand abstraction of the code (validated, not proved); data-race freedom of the "
           "C++ accesses is validated by ThreadSanitizer + differential runs on SAMPLED schedules only (partial); translator "
